@@ -18,15 +18,34 @@ type lineReader struct {
 // sseLineReaders finds the functions that split a peer stream into SSE lines.
 func sseLineReaders(c *Ctx) []lineReader {
 	var out []lineReader
+	// field parsers: functions testing a line for the "data:" prefix
+	parser := map[*ssa.Function]bool{}
 	for _, fn := range c.P.LibFns {
-		parses := false
 		ir.EachCall(fn, func(call ssa.CallInstruction) {
-			if ir.CallName(call) == "strings.HasPrefix" {
+			switch ir.CallName(call) {
+			case "strings.HasPrefix", "strings.CutPrefix", "strings.TrimPrefix":
 				if s, ok := ir.ConstStr(call.Common().Args[1]); ok && (s == "data:" || s == "data: ") {
-					parses = true
+					parser[fn] = true
 				}
 			}
 		})
+	}
+	for _, fn := range c.P.LibFns {
+		// a line reader parses the fields itself, or reads the lines and hands each to a field parser
+		parses := parser[fn]
+		if !parses {
+			reads, calls := false, false
+			ir.EachCall(fn, func(call ssa.CallInstruction) {
+				switch ir.CallName(call) {
+				case "(*bufio.Scanner).Scan", "(*bufio.Reader).ReadString", "(*bufio.Reader).ReadBytes", "(*bufio.Reader).ReadLine":
+					reads = true
+				}
+				if sc := ir.StaticCallee(call); sc != nil && parser[sc] {
+					calls = true
+				}
+			})
+			parses = reads && calls
+		}
 		if !parses {
 			continue
 		}
